@@ -32,7 +32,7 @@ import torch
 from lib.core import Ctx, run_check
 from lib.tlc import MachineryError, WORK
 
-KINDS = ["recurrent-linear", "batched-log-module", "identity-single", "inplace-single", "shared-module-prev", "whalley-wilmott", "black-scholes", "mlp-tanh"]
+KINDS = ["recurrent-linear", "batched-log-module", "identity-single", "inplace-single", "shared-module-prev", "module-listed-spot", "whalley-wilmott", "black-scholes", "mlp-tanh"]
 
 
 def thash(*ts: torch.Tensor) -> str:
@@ -53,6 +53,9 @@ class World:
         self.deriv = {"d1": EuropeanOption(self.prim["p1"], maturity=1.0), "d2": LookbackOption(self.prim["p1"], maturity=1.0, strike=1.1),
                       "d3": EuropeanOption(self.prim["p2"], call=False, maturity=0.75)}
         self.deriv["d2"].list(lambda d: d.ul().spot, cost=5e-4)         # the pricer hands out the buffer itself
+        self.deriv["d1"].list(lambda d: d.ul().spot * 0.5 + 0.1, cost=1e-4)
+        self.deriv["d3"].list(lambda d: (d.ul().spot - 1.0).abs() + 0.05, cost=2e-4)
+        self.bound: Dict[str, Any] = {}                                   # feature objects that stay bound between operations
         torch.manual_seed(seed)
         self.hedgers = {"h1": self.make_hedger()}
         self.hedgers["h2"] = self.clone_hedger(self.hedgers["h1"], sibling=True)   # same parameters: must agree with h1
@@ -83,6 +86,10 @@ class World:
                     self._shared_mo = mo
             else:
                 mo = self._shared_mo
+            return Hedger(torch.nn.Linear(2, 1, dtype=dt), [mo, "time_to_maturity"])
+        if k == "module-listed-spot":      # the listed price of the hedged derivative enters through a ModuleOutput feature
+            from pfhedge.features import Spot
+            mo = ModuleOutput(torch.nn.Linear(2, 1, dtype=dt), [Spot(), Moneyness()])
             return Hedger(torch.nn.Linear(2, 1, dtype=dt), [mo, "time_to_maturity"])
         if k == "inplace-single":        # a user model whose first operation works in place on its input
             return Hedger(torch.nn.Hardtanh(0.0, 1.0, inplace=True), ["underlier_spot"])
@@ -156,10 +163,15 @@ class World:
             if dv.is_listed:
                 names += ["spot", Spot(log=True)]
             outs = []
-            for f in names:
+            for j, f in enumerate(names):
                 ft = get_feature(f).of(dv)
                 outs.append(ft.get(None).flatten())
                 outs.append(ft.get(1).flatten())
+                # ... and through a feature object that stays bound between operations and is re-bound from its previous binding
+                key = f if isinstance(f, str) else f"{type(f).__name__}{j}"
+                prevb = self.bound.get(key)
+                self.bound[key] = (prevb if prevb is not None else get_feature(f)).of(dv)
+                outs.append(self.bound[key].get(None).flatten())
             return torch.cat(outs)
         hedge = [dv.ul(), self.deriv["d2"]] if (self.kind == "identity-single" and False) else None
         if op == "ComputeHedge":
